@@ -237,6 +237,24 @@ def model_check(ctx, module, cfg, **kw):
     return r
 
 
+def run_tlapm(ctx, module, timeout=900, threads=8):
+    """TLAPS proof check of spec/<module> (unbounded statements about a model). Returns the number of proved
+    obligations; anything else than 'All N obligations proved' is a failure of OUR proof (ToolError)."""
+    cache = ctx.path("tlaps-cache-%d" % len(ctx.cov["tlc_runs"]))
+    t = time.time()
+    p = subprocess.run(["timeout", str(timeout), "tlapm", "--threads", str(threads), "-I", SPEC, "-I", os.path.join(SPEC, "mc"),
+                        "--cache-dir", cache, os.path.join(SPEC, module)], cwd=ctx.work, stdout=subprocess.PIPE,
+                       stderr=subprocess.STDOUT, text=True)
+    shutil.rmtree(cache, ignore_errors=True)
+    m = re.search(r"All (\d+) obligations? proved", p.stdout)
+    ctx.cov.setdefault("tlaps", []).append({"module": module, "obligations_proved": int(m.group(1)) if m else 0,
+                                            "wall_s": round(time.time() - t, 1), "ok": bool(m)})
+    if not m:
+        sys.stderr.write(p.stdout[-3000:] + "\n")
+        raise ToolError("TLAPS did not prove %s (exit %d)" % (module, p.returncode))
+    return int(m.group(1))
+
+
 def parse_tla_tuple(line):
     """best-effort conversion of a printed TLA+ tuple/set/record value to Python (via JSON-ish rewriting)"""
     s = line
